@@ -123,6 +123,29 @@ Theorem C06_pool_failure_closes : forall s c,
 Proof. exact failing_steps_close. Qed.
 Print Assumptions C06_pool_failure_closes.
 
+(* Split calls (protocol.Splitter: ListOffsets, ListGroups, DescribeGroups, DescribeConfigs).
+   In the model the sub-requests of one call are ordinary requesters [subs] (in request order)
+   and the slice handed to the merger is [split_results s subs] = map (outcome of) subs: result
+   i is BY POSITION the outcome of the requester carrying sub-request i (transport.go:
+   promises[i] = sendRequest(messages[i]); joined.await: results[i] = promises[i].await).
+   Under that alignment every value at position i is a frame the broker produced for
+   sub-request i — the single-exchange theorem applied pointwise.  The alignment itself is a
+   fact about the implementation: harness op trsplit + monitor mon_split hold the code to it. *)
+Theorem C06_transport_split_own_response : forall ls s, prun pinit ls = Some s ->
+  (forall c, nex (cn s c) < ID_BOUND) ->
+  forall subs i r f,
+    nth_error subs i = Some r ->
+    nth_error (split_results s subs) i = Some (Some (RVal f)) ->
+    fown f = r /\ exists c k, fid f = wrap32 k /\ lookup_ord k (bsent (cn s c)) = Some r.
+Proof. exact transport_split_own_response. Qed.
+Print Assumptions C06_transport_split_own_response.
+
+Theorem C06_transport_split_aligned : forall s subs,
+  length (split_results s subs) = length subs /\
+  forall i r, nth_error subs i = Some r -> nth_error (split_results s subs) i = Some (sub_result s r).
+Proof. intros s subs. split; [apply split_results_length|intros i r; apply split_results_nth]. Qed.
+Print Assumptions C06_transport_split_aligned.
+
 (* ======================= non-vacuity ======================= *)
 
 (* two calls, answers in reverse order, one yields the read lock, both complete with their
@@ -177,6 +200,15 @@ Example monitors_accept_clean_run :
   let anss := [mkJans 2 2 1; mkJans 2 3 2] in
   let res := [mkJres 3 None; mkJres 1 (Some 1%nat); mkJres 1 (Some 2%nat)] in
   (mon_ids reqs, mon_fail res reqs, mon_delivery res anss) = (true, true, true).
+Proof. vm_compute. reflexivity. Qed.
+
+(* mon_split on the journal of the seeded "promises in completion order" change: the answer to
+   (partition 2, first) is delivered under the question (partition 2, timestamp 0x2f0) *)
+Example mon_split_rejects_misaligned_merge :
+  mon_split [(2, -2); (2, 752)] [mkQa 2 (-2) 2001; mkQa 2 752 2852] [mkQa 2 752 2001; mkQa 2 752 2852] = false.
+Proof. vm_compute. reflexivity. Qed.
+Example mon_split_accepts_aligned_merge :
+  mon_split [(2, -2); (2, 752)] [mkQa 2 (-2) 2001; mkQa 2 752 2852] [mkQa 2 752 2852; mkQa 2 (-2) 2001] = true.
 Proof. vm_compute. reflexivity. Qed.
 
 (* transport: a cancelled call's answer is consumed by the run loop before the connection is
